@@ -194,6 +194,25 @@ def res_path(res):
     return res.get('dbg', '?')
 
 
+_INTS = ('u8', 'u16', 'u32', 'u64', 'u128', 'usize', 'i8', 'i16', 'i32', 'i64', 'i128', 'isize')
+
+
+def num_limit(node):
+    """`u16::max_value()` and `u16::MAX` (likewise MIN) are one canonical term `u16::MAX`, typed."""
+    k = node.get('k')
+    p = None
+    if k == 'Call' and not node.get('args') and node['f'].get('k') == 'Def':
+        p = node['f'].get('path') or ''
+        m = re.match(r'^(?:core|std)::num::<impl (\w+)>::(max|min)_value$', p)
+        if m and m.group(1) in _INTS:
+            return '%s::%s' % (m.group(1), m.group(2).upper())
+    if k == 'Def':
+        m = re.match(r'^(?:core|std)::num::<impl (\w+)>::(MAX|MIN)$', node.get('path') or '')
+        if m and m.group(1) in _INTS:
+            return '%s::%s' % (m.group(1), m.group(2))
+    return None
+
+
 def term(node, env=None, depth=0):
     """Canonical string of an expression. env maps local ids to replacement terms."""
     if node is None:
@@ -204,6 +223,8 @@ def term(node, env=None, depth=0):
         if env is not None and node['id'] in env:
             return env[node['id']]
         return node['name']
+    if num_limit(node):
+        return num_limit(node)
     if k == 'Def':
         return norm_path(node.get('resolved') or node['path'])
     if k == 'Lit':
